@@ -94,7 +94,7 @@ fuzz_target!(|data: &[u8]| {
         }
         1 => {
             let ops: Vec<Op> = raw.into_iter().filter_map(for_c13).collect();
-            let c = c13::Case { role, limit, ops, pre: Vec::new(), neg: data[3] & 1 != 0 && role.is_v5() };
+            let c = c13::Case { role, limit, ops, pre: Vec::new(), neg: data[3] & 1 != 0 && role.is_v5(), hold_bp: data[3] & 4 != 0 };
             c13::check_case(&c).map_err(|f| ("C13", f.with_case(serde_json::json!({"case": c}))))
         }
         2 => {
